@@ -26,6 +26,7 @@ CONSTANTS
   AllowNested = FALSE
   OthersCall = "never"
   KeepPagesWritable = FALSE
+  TrampFlushed = TRUE
   MaxLives = 1
 INVARIANT NoFault TypeOK Mutex HolderIsLock PrevSeesOrig OwnFakes FreeMeansOrig NoAbort Reusable Restored NoLeak NoSelfDeadlock WX
 PROPERTY HandOver NoStuck
